@@ -17,7 +17,16 @@ package c12
 //   * walk error != nil  <=>  some reached failure is not swallowed by the option chain, and the
 //     returned error is one the chain can produce;
 //   * the provider is asked for reached nodes only, and for every reached node that was fetched;
-//   * every option list terminates (also: no concurrent visit calls, as documented).
+//   * every option list terminates (also: no concurrent visit calls, as documented). The walk gets
+//     a context WITHOUT deadline (a deadline would release workers that wait for the caller's
+//     context and so hide a stuck walk). A walk that has not returned after a second is probed
+//     through goroutine dumps: if the walk goroutine and every goroutine it (transitively)
+//     started are parked in channel/lock waits, nothing else in the process is runnable and the
+//     picture is identical in three consecutive dumps, nothing can ever wake the walk (the
+//     harness owns the only other party, the context): deadlock, reported without timing
+//     judgement. Slowness alone is only reported after 120 s, twice.
+//   * "gate" cases own the schedule of failing fetches: a failing fetch is held (<= 5 ms) until
+//     a second failing fetch is pending, so that two workers fail at the same time.
 //
 // Go stack overflows are fatal errors, so while finding C12/F6a is open every case with two or
 // more error-handling options runs in a child process (re-exec of this test binary).
@@ -33,9 +42,11 @@ import (
 	"io"
 	"os"
 	"os/exec"
+	"regexp"
 	"runtime"
 	"runtime/debug"
 	"sort"
+	"strconv"
 	"strings"
 	"sync"
 	"sync/atomic"
@@ -88,6 +99,9 @@ type Case struct {
 	Depth  int        `json:"depth"`
 	Conc   int        `json:"conc"` // 0: no option, -1: Concurrent(), n: Concurrency(n)
 	Opts   []Opt      `json:"opts"`
+	// Gate: a failing fetch is held back until a second failing fetch is pending (at most
+	// gateWait), so that concurrent workers report their failures together.
+	Gate bool `json:"gate,omitempty"`
 }
 
 func isHandler(k string) bool {
@@ -123,9 +137,10 @@ func gen(t *rapid.T) Case {
 			nd.State = "local"
 		}
 	}
-	// failing blocks: none / one or two / roughly every 8th node
+	// failing blocks: none / one or two / roughly every 8th node / several children of one node
 	failKinds := []string{"missing", "missing", "corrupt"}
-	switch rapid.SampledFrom([]string{"sparse", "none", "dense", "sparse", "none"}).Draw(t, "failures") {
+	failures := rapid.SampledFrom([]string{"sparse", "none", "dense", "sparse", "none", "siblings", "siblings"}).Draw(t, "failures")
+	switch failures {
 	case "sparse":
 		for k := rapid.IntRange(1, 2).Draw(t, "nfail"); k > 0; k-- {
 			i := rapid.IntRange(0, n-1).Draw(t, "failidx")
@@ -176,6 +191,25 @@ func gen(t *rapid.T) Case {
 		}
 		if a >= 0 && a != parent[q] {
 			c.Nodes[a].Links = append(c.Nodes[a].Links, q)
+		}
+	}
+	// several failing siblings: a concurrent walk dispatches them together, so more than one
+	// worker has a failure to report at the same moment
+	if failures == "siblings" {
+		var cands []int
+		for i := range c.Nodes {
+			if len(distinct(c.Nodes[i].Links)) >= 2 {
+				cands = append(cands, i)
+			}
+		}
+		if len(cands) > 0 {
+			p := cands[rapid.IntRange(0, len(cands)-1).Draw(t, "sibparent")] // small: close to the root
+			kids := distinct(c.Nodes[p].Links)
+			k := max(rapid.IntRange(2, len(kids)).Draw(t, "nsib"), rapid.IntRange(2, len(kids)).Draw(t, "nsib2"))
+			off := rapid.IntRange(0, len(kids)-k).Draw(t, "siboff")
+			for _, j := range kids[off : off+k] {
+				c.Nodes[j].State = rapid.SampledFrom(failKinds).Draw(t, "failkind")
+			}
 		}
 	}
 	for i := range c.Nodes {
@@ -253,7 +287,20 @@ func gen(t *rapid.T) Case {
 	if c.Opts == nil {
 		c.Opts = []Opt{}
 	}
+	c.Gate = rapid.Bool().Draw(t, "gate")
 	return c
+}
+
+func distinct(xs []int) []int {
+	var out []int
+	seen := map[int]bool{}
+	for _, x := range xs {
+		if !seen[x] {
+			seen[x] = true
+			out = append(out, x)
+		}
+	}
+	return out
 }
 
 // ---------------------------------------------------------------------------
@@ -442,7 +489,8 @@ type observed struct {
 	hnil      []map[string]bool // onerror invocations with a nil error: "<cidkey>"
 	provided  map[string]int    // multihash -> count
 	err       error
-	hang      string
+	deadlock  string // the walk's goroutines are all parked for good (see probeWalk)
+	hang      string // no deadlock picture, but still running after hardLimit
 }
 
 var replErrs = func() []error {
@@ -482,7 +530,69 @@ func (p recProvider) StartProviding(force bool, keys ...mh.Multihash) error {
 	return nil
 }
 
-const walkTimeout = 60 * time.Second
+// Watchdog of one walk (see waitWalk). None of these durations decides a deadlock verdict:
+// they only say when to look. A healthy walk over <= 40 in-memory blocks takes well under a
+// millisecond.
+const (
+	probeAfter  = 1 * time.Second        // first look at a walk that has not returned
+	probeEvery  = 400 * time.Millisecond // distance between looks
+	probeStable = 3                      // identical quiescent pictures needed
+	hardLimit   = 120 * time.Second      // "still running" (no deadlock picture): reported only twice in a row
+	drainWait   = 5 * time.Second        // after the verdict the context is cancelled; wait this long for the walk to go away
+	gateWait    = 5 * time.Millisecond
+)
+
+// failGate holds a failing fetch back until a second failing fetch is pending (or gateWait has
+// passed, or the context is done) and then releases both.
+type failGate struct {
+	mu      sync.Mutex
+	waiting int
+	wave    chan struct{}
+}
+
+//go:noinline
+func (g *failGate) hold(ctx context.Context) {
+	g.mu.Lock()
+	if g.wave == nil {
+		g.wave = make(chan struct{})
+	}
+	ch := g.wave
+	g.waiting++
+	if g.waiting >= 2 {
+		close(ch)
+		g.wave, g.waiting = nil, 0
+		g.mu.Unlock()
+		return
+	}
+	g.mu.Unlock()
+	tm := time.NewTimer(gateWait)
+	defer tm.Stop()
+	select {
+	case <-ch:
+		return
+	case <-tm.C:
+	case <-ctx.Done():
+	}
+	g.mu.Lock()
+	if g.wave == ch {
+		g.wave, g.waiting = nil, 0
+	}
+	g.mu.Unlock()
+}
+
+// gatedDAG delays failing Get calls of the DAG service (FetchGraph builds its own link getter).
+type gatedDAG struct {
+	format.DAGService
+	gate *failGate
+}
+
+func (d gatedDAG) Get(ctx context.Context, ci cid.Cid) (format.Node, error) {
+	nd, err := d.DAGService.Get(ctx, ci)
+	if err != nil {
+		d.gate.hold(ctx)
+	}
+	return nd, err
+}
 
 func execute(c Case, b *built) *observed {
 	o := &observed{visitTrue: map[cid.Cid]bool{}, provided: map[string]int{}}
@@ -584,17 +694,33 @@ func execute(c Case, b *built) *observed {
 		}
 		return false
 	}
-	ctx, cancel := context.WithTimeout(context.Background(), walkTimeout)
+	// no deadline: the walk must return on its own
+	ctx, cancel := context.WithCancel(context.Background())
 	defer cancel()
+	dserv := b.dserv
 	var getLinks merkledag.GetLinks
 	if c.Getter == "dag" {
 		getLinks = merkledag.GetLinksWithDAG(b.dserv)
 	} else {
 		getLinks = merkledag.GetLinksDirect(b.dserv)
 	}
+	if c.Gate {
+		gate := &failGate{}
+		inner := getLinks
+		getLinks = func(ctx context.Context, ci cid.Cid) ([]*format.Link, error) {
+			links, err := inner(ctx, ci)
+			if err != nil {
+				gate.hold(ctx)
+			}
+			return links, err
+		}
+		dserv = gatedDAG{b.dserv, gate}
+	}
 	root := b.cids[0]
 	done := make(chan error, 1)
+	var walkGID atomic.Int64
 	go func() {
+		walkGID.Store(int64(curGoroutineID()))
 		var err error
 		switch c.API {
 		case "walk":
@@ -602,41 +728,207 @@ func execute(c Case, b *built) *observed {
 		case "walkdepth":
 			err = merkledag.WalkDepth(ctx, getLinks, root, visitDepth, opts...)
 		case "fetch":
-			err = merkledag.FetchGraph(ctx, root, b.dserv, opts...)
+			err = merkledag.FetchGraph(ctx, root, dserv, opts...)
 		case "fetchdepth":
-			err = merkledag.FetchGraphWithDepthLimit(ctx, root, c.Depth, b.dserv, opts...)
+			err = merkledag.FetchGraphWithDepthLimit(ctx, root, c.Depth, dserv, opts...)
 		default:
 			err = fmt.Errorf("harness: unknown api %q", c.API)
 		}
 		done <- err
 	}()
-	guard := time.NewTimer(walkTimeout + 20*time.Second)
-	defer guard.Stop()
-	select {
-	case err := <-done:
-		o.err = err
-		if token(err) == "ctx" {
-			o.hang = "walk ran into the " + walkTimeout.String() + " context deadline"
-		}
-	case <-guard.C:
-		buf := make([]byte, 1<<20)
-		buf = buf[:runtime.Stack(buf, true)]
-		o.hang = "walk did not return " + (walkTimeout + 20*time.Second).String() + " after start; goroutines in merkledag: " + merkledagFrames(string(buf))
-	}
+	waitWalk(o, done, &walkGID, cancel)
 	return o
 }
 
-func merkledagFrames(dump string) string {
-	var out []string
-	for _, l := range strings.Split(dump, "\n") {
-		if strings.Contains(l, "boxo/ipld/merkledag.") {
-			out = append(out, strings.TrimSpace(l))
+// waitWalk waits for the walk and fills o.err, or o.deadlock / o.hang.
+func waitWalk(o *observed, done chan error, walkGID *atomic.Int64, cancel func()) {
+	first := time.NewTimer(probeAfter)
+	defer first.Stop()
+	select {
+	case o.err = <-done:
+		return
+	case <-first.C:
+	}
+	start := time.Now()
+	stable, lastSig := 0, ""
+	for {
+		tm := time.NewTimer(probeEvery)
+		select {
+		case o.err = <-done:
+			tm.Stop()
+			return
+		case <-tm.C:
 		}
-		if len(out) > 12 {
+		p := probeWalk(int(walkGID.Load()))
+		switch {
+		case !p.quiet:
+			stable = 0
+		case stable > 0 && p.sig == lastSig:
+			stable++
+		default:
+			stable = 1
+		}
+		lastSig = p.sig
+		if stable >= probeStable {
+			o.deadlock = p.desc
+			break
+		}
+		if time.Since(start) > hardLimit {
+			o.hang = "walk still running " + (probeAfter + hardLimit).String() + " after start (context without deadline); its goroutines: " + p.desc
 			break
 		}
 	}
-	return strings.Join(out, " | ")
+	// let the goroutines of the walk go away if they still listen to the context
+	cancel()
+	dr := time.NewTimer(drainWait)
+	defer dr.Stop()
+	select {
+	case <-done:
+	case <-dr.C:
+	}
+}
+
+// ---------------------------------------------------------------------------
+// deadlock probe
+
+type goroutineInfo struct {
+	id, parent int
+	state      string
+	funcs      []string // "function file:line" of every frame
+}
+
+type probeResult struct {
+	quiet bool   // walk goroutine and all its descendants parked for good, nothing else runnable
+	sig   string // identity of that picture
+	desc  string // for the report
+}
+
+var (
+	reGoHeader  = regexp.MustCompile(`^goroutine (\d+) \[([^\],]+)`)
+	reGoCreated = regexp.MustCompile(`(?m)^created by .* in goroutine (\d+)$`)
+)
+
+// states in which a goroutine waits for another goroutine (not for time, I/O or the scheduler)
+var parkedStates = map[string]bool{
+	"chan send": true, "chan receive": true, "select": true, "select (no cases)": true,
+	"chan send (nil chan)": true, "chan receive (nil chan)": true,
+	"sync.WaitGroup.Wait": true, "semacquire": true, "sync.Mutex.Lock": true,
+	"sync.RWMutex.Lock": true, "sync.RWMutex.RLock": true, "sync.Cond.Wait": true,
+}
+
+func curGoroutineID() int {
+	buf := make([]byte, 64)
+	buf = buf[:runtime.Stack(buf, false)]
+	if m := reGoHeader.FindSubmatch(buf); m != nil {
+		id, _ := strconv.Atoi(string(m[1]))
+		return id
+	}
+	return -1
+}
+
+func allGoroutines() (self int, gs map[int]*goroutineInfo) {
+	buf := make([]byte, 4<<20)
+	for {
+		n := runtime.Stack(buf, true)
+		if n < len(buf) {
+			buf = buf[:n]
+			break
+		}
+		buf = make([]byte, 2*len(buf))
+	}
+	gs = map[int]*goroutineInfo{}
+	self = -1
+	for _, blk := range strings.Split(string(buf), "\n\n") {
+		m := reGoHeader.FindStringSubmatch(blk)
+		if m == nil {
+			continue
+		}
+		g := &goroutineInfo{parent: -1, state: strings.TrimSpace(m[2])}
+		g.id, _ = strconv.Atoi(m[1])
+		if self < 0 {
+			self = g.id // the calling goroutine comes first
+		}
+		if c := reGoCreated.FindStringSubmatch(blk); c != nil {
+			g.parent, _ = strconv.Atoi(c[1])
+		}
+		lines := strings.Split(blk, "\n")[1:]
+		for k, l := range lines {
+			if l == "" || strings.HasPrefix(l, "\t") || strings.HasPrefix(l, "created by ") {
+				continue
+			}
+			if p := strings.LastIndex(l, "("); p > 0 {
+				l = l[:p] // argument values are of no interest
+			}
+			if k+1 < len(lines) && strings.HasPrefix(lines[k+1], "\t") {
+				loc := strings.Fields(lines[k+1])[0]
+				l += " " + loc[strings.LastIndex(loc, "/")+1:]
+			}
+			g.funcs = append(g.funcs, l)
+		}
+		gs[g.id] = g
+	}
+	return self, gs
+}
+
+func probeWalk(walkGID int) probeResult {
+	self, gs := allGoroutines()
+	if gs[walkGID] == nil {
+		return probeResult{desc: "walk goroutine gone"}
+	}
+	// the walk goroutine and everything it started, transitively
+	in := map[int]bool{walkGID: true}
+	for changed := true; changed; {
+		changed = false
+		for id, g := range gs {
+			if !in[id] && in[g.parent] {
+				in[id] = true
+				changed = true
+			}
+		}
+	}
+	var ids []int
+	for id := range in {
+		ids = append(ids, id)
+	}
+	sort.Ints(ids)
+	quiet := true
+	for id, g := range gs {
+		if id != self && !in[id] && (g.state == "running" || g.state == "runnable") {
+			quiet = false // somebody else is busy: judge later
+		}
+	}
+	var sig, desc []string
+	for _, id := range ids {
+		g := gs[id]
+		if !parkedStates[g.state] {
+			quiet = false
+		}
+		top := ""
+		for _, f := range g.funcs {
+			if strings.Contains(f, "c12.(*failGate).hold") {
+				quiet = false // waits for the gate's timer
+			}
+			if top == "" && strings.Contains(f, "github.com/ipfs/boxo/") {
+				top = strings.TrimPrefix(f, "github.com/ipfs/boxo/")
+			}
+		}
+		sig = append(sig, fmt.Sprintf("%d [%s] %s", id, g.state, strings.Join(g.funcs, ";")))
+		desc = append(desc, fmt.Sprintf("[%s] in %s", g.state, top))
+	}
+	// compress equal lines for the report
+	cnt := map[string]int{}
+	var order []string
+	for _, d := range desc {
+		if cnt[d] == 0 {
+			order = append(order, d)
+		}
+		cnt[d]++
+	}
+	var parts []string
+	for _, d := range order {
+		parts = append(parts, fmt.Sprintf("%dx %s", cnt[d], d))
+	}
+	return probeResult{quiet: quiet, sig: strings.Join(sig, "\n"), desc: strings.Join(parts, ", ")}
 }
 
 func parallelMode(c Case) bool {
@@ -658,25 +950,68 @@ type verdict struct {
 	f6b   []string // violations matching the F6b signature: parallel walk reported the walk root's CID
 }
 
+// schedReps: how often a concurrent walk with several reached failures is repeated (fresh stores
+// each time): which workers fail together is up to the scheduler, the property quantifies over
+// schedules.
+const schedReps = 4
+
 func runInProc(c Case) kit.Result {
 	if len(c.Nodes) == 0 {
 		return kit.Fail("harness: empty DAG")
 	}
+	reps := 1
+	if parallelMode(c) {
+		b, err := build(c)
+		if err != nil {
+			return kit.Fail("%v", err)
+		}
+		if len(reference(c, b).failing) >= 2 {
+			reps = schedReps
+		}
+	}
+	var res kit.Result
+	for ; reps > 0; reps-- {
+		if res = runOnce(c); res.Err != nil {
+			break
+		}
+	}
+	return res
+}
+
+func runOnce(c Case) kit.Result {
 	b, err := build(c)
 	if err != nil {
 		return kit.Fail("%v", err)
 	}
 	ref := reference(c, b)
 	o := execute(c, b)
+	deadlocked := func(o *observed) kit.Result {
+		// termination is part of the statement; the goroutine picture is the confirmation
+		// (no second run: which worker gets stuck depends on the schedule)
+		want := "return nil"
+		if ref.fatal {
+			want = "return the error of a failing block, " + describeFatal(ref, b)
+		}
+		mode := "sequential"
+		if parallelMode(c) {
+			mode = "concurrent"
+		}
+		return kit.Fail("%s walk never returns (context without deadline; expected: %s): deadlock, every goroutine of the walk is parked and nothing is left to wake them: %s", mode, want, o.deadlock)
+	}
+	if o.deadlock != "" {
+		return deadlocked(o)
+	}
 	if o.hang != "" {
-		// termination is part of the statement; confirm on a fresh instance before reporting
+		// no deadlock picture: confirm on a fresh instance before reporting
 		b2, _ := build(c)
 		o2 := execute(c, b2)
-		if o2.hang == "" {
-			o, b = o2, b2
-		} else {
+		switch {
+		case o2.deadlock != "":
+			return deadlocked(o2)
+		case o2.hang != "":
 			return kit.Fail("walk does not terminate (twice): %s; %s", o.hang, o2.hang)
 		}
+		o, b = o2, b2
 	}
 	par := parallelMode(c)
 	skip := false
@@ -899,6 +1234,21 @@ func runInProc(c Case) kit.Result {
 		} else {
 			cls = append(cls, "failures-all-swallowed")
 		}
+	}
+	nFatal := 0
+	for _, e := range ref.final {
+		if e != "" {
+			nFatal++
+		}
+	}
+	if par && nFatal >= 2 {
+		cls = append(cls, "par-several-fatal-failures")
+		if c.Gate {
+			cls = append(cls, "par-several-fatal-failures-gated")
+		}
+	}
+	if c.Gate && len(ref.failing) > 0 {
+		cls = append(cls, "gate-used")
 	}
 	if sharedDeeper {
 		cls = append(cls, "shared-at-two-depths")
@@ -1183,7 +1533,7 @@ func run0(c Case) kit.Result {
 
 var spec = kit.Spec[Case]{
 	Prop: "C12", Name: "main",
-	Rule:  "random DAG (<=30, thorough <=40 nodes; dag-pb + raw leaves; sharing; missing/undecodable/already-local blocks) walked by Walk/WalkDepth/FetchGraph/FetchGraphWithDepthLimit with depth -1..6, concurrency none/default/1..32 and an ordered list of 0..3 error-handling options plus SkipRoot/WithProvider, compared with a reference BFS; non-trivial = a failing block is reached, or >=2 error-handling options are composed, or a node is linked at two different depths",
+	Rule:  "random DAG (<=30, thorough <=40 nodes; dag-pb + raw leaves; sharing; missing/undecodable/already-local blocks) walked by Walk/WalkDepth/FetchGraph/FetchGraphWithDepthLimit with depth -1..6, concurrency none/default/1..32 and an ordered list of 0..3 error-handling options plus SkipRoot/WithProvider (failure placement: none / 1-2 / every 8th node / several children of one node; optionally failing fetches held until two are pending), compared with a reference BFS, termination judged by a goroutine-dump deadlock probe; non-trivial = a failing block is reached, or >=2 error-handling options are composed, or a node is linked at two different depths",
 	Quick: 1500, Thorough: 12000,
 	Gen: gen, Run: run, Journal: true,
 }
